@@ -728,9 +728,9 @@ def _hist_child(case):
     return res
 
 
-def _compare_summary(sm, R, S, fn, tag, dscale, out):
+def _compare_summary(sm, R, S, fn, tag, dscale, out, pre=None):
     """Summary of a library result against the reference coarse graph R (SI).  Returns #comparisons."""
-    pre = "C16:history:%s:" % fn
+    pre = pre or "C16:history:%s:" % fn
     ev = 0
     G = R["n_groups"]
     if len(sm["nodes"]) != G:
@@ -1058,8 +1058,137 @@ def _eval_script(case, cache):
     return out, info
 
 
+
+# ---- repeated calls on the SAME input objects -----------------------------------------------------------------
+
+def _traj_fp(traj):
+    return (tuple(float(x) for x in traj.data.value), str(traj.data.units), tuple(float(x) for x in traj.t.value))
+
+
+def _eval_rep(case, cache):
+    """coarsegrain_system / coarsegrain_grid / grid_to_graph / uncoarsegrain_trajectory(_data) called three times on
+    the same input objects.  Every call must give the reference result of the ORIGINAL input (the statement's clauses
+    hold on every call); a modified input object alone is only counted."""
+    import strengths.coarsegrain as lib
+    out, info = [], {"transitions": 0, "evaluations": 1}
+    w, h, d = case["grid"]
+    n = w * h * d
+    m0 = list(case["map"])
+    env = list(case["env"])
+    cls = cg.classify(m0, n, env)
+    info["class"] = cls or "valid"
+    if cls is not None:
+        info["filtered"] = 1
+        return out, info
+    S = 2
+    NCALL = 3
+    (system, ref), _, _ = _get_system(dict(case, chem=chem_rich(S, n), nspecies=S), None)
+    R = cg.coarse(w, h, d, ref["v_si"], env, ref["state_si"], ref["chem"], m0)
+    Rid = cg.coarse(w, h, d, ref["v_si"], env, ref["state_si"], ref["chem"], list(range(n)))
+    dscale = R["cell_edge"] * (w + h + d)
+    mut = {}
+
+    def note(what):
+        mut[what] = 1
+
+    # -- coarse-graining functions -------------------------------------------------------------------------
+    m = list(m0)
+    for fn in ("coarsegrain_system", "coarsegrain_grid", "grid_to_graph"):
+        first = None
+        for k in range(1, NCALL + 1):
+            fp0 = _fingerprint(system)
+            tag = "call %d of %s on the same objects (map %s)" % (k, fn, m0)
+            try:
+                if fn == "coarsegrain_system":
+                    obj = lib.coarsegrain_system(system, m)
+                elif fn == "coarsegrain_grid":
+                    obj = lib.coarsegrain_grid(system.space, m)
+                else:
+                    obj = lib.grid_to_graph(system.space)
+                info["transitions"] += 1
+                sm = _summarize(fn, obj)
+                info["evaluations"] += _compare_summary(sm, R if fn != "grid_to_graph" else Rid, S, fn, tag, dscale, out,
+                                                        pre="C16:repeat:%s:call-%d:" % (fn, k))
+                if first is None:
+                    first = sm
+                else:
+                    info["evaluations"] += 1
+                    df = _same_summary(sm, first, dscale)
+                    if df is not None:
+                        out.append(("C16:repeat:%s:call-%d:differs-from-first-call:%s" % (fn, k, df), tag))
+            except _Bad as b:
+                out.append((b.key, tag + ": " + b.what))
+            except Exception as e:
+                out.append(("C16:repeat:%s:call-%d:unexpected-exception" % (fn, k), "%s: %s: %s" % (tag, type(e).__name__, e)))
+            try:
+                if _fingerprint(system) != fp0:
+                    note("system")
+            except Exception:
+                note("system")
+            if m != m0:
+                note("index_map")
+            if out:
+                break
+        if out:
+            break
+    # -- un-coarse-graining: hand-built coarse trajectory on the reference coarse system ----------------------
+    if not out:
+        Rg = cg.coarse(w, h, d, 8.0, env, [[1.0] * n] * S, [[0] * n] * S, m0)
+        G = Rg["n_groups"]
+        nodes = [RDGraphSpaceNode(volume=Rg["volume"][g], environment=Rg["env"][g]) for g in range(G)]
+        edges = [RDGraphSpaceEdge(i=k_[0], j=k_[1], surface=v["surface"], distance=v["distance"])
+                 for k_, v in sorted(Rg["edges"].items())]
+        cgsys = RDSystem(system.network, RDGraphSpace(nodes=nodes, edges=edges), state=[1.0] * (S * G),
+                         chemostats=[0] * (S * G))
+        vals = [float(p) for p in PRIMES[11:11 + NS_HAND * S * G]]
+        for fn in ("uncoarsegrain_trajectory", "uncoarsegrain_trajectory_data"):
+            traj = RDTrajectory(data=UnitArray(list(vals), "molecule"), t_sample=UnitArray([0.0, 0.5, 1.25], "s"),
+                                system=cgsys)
+            m = list(m0)
+            first = None
+            for k in range(1, NCALL + 1):
+                tfp, sfp = _traj_fp(traj), _fingerprint(system)
+                tag = "call %d of %s on the same coarse trajectory (map %s)" % (k, fn, m0)
+                site = "repeat:%s:call-%d" % (fn, k)
+                try:
+                    if fn == "uncoarsegrain_trajectory":
+                        data = lib.uncoarsegrain_trajectory(traj, system, m).data
+                    else:
+                        data = lib.uncoarsegrain_trajectory_data(traj, system.space, m)
+                    info["transitions"] += 1
+                    fine = _si_array(data, (0, 0, 1), site, "data")
+                    o2 = []
+                    # the reference is the spread of the ORIGINAL coarse data (what the caller put in the trajectory)
+                    info["evaluations"] += _check_spread(site, fine, vals, m0, NS_HAND, S, o2)
+                    out.extend((key, tag + ": " + wht) for key, wht in o2)
+                    if first is None:
+                        first = fine
+                    elif not o2 and (len(fine) != len(first) or
+                                     any(not _close(x, y, abs(y)) for x, y in zip(fine, first))):
+                        out.append(("C16:%s:differs-from-first-call" % site, tag))
+                except _Bad as b:
+                    out.append((b.key, tag + ": " + b.what))
+                except Exception as e:
+                    out.append(("C16:%s:unexpected-exception" % site, "%s: %s: %s" % (tag, type(e).__name__, e)))
+                if _traj_fp(traj) != tfp:
+                    note("coarse_trajectory")
+                if _fingerprint(system) != sfp:
+                    note("system")
+                if m != m0:
+                    note("index_map")
+                if out:
+                    break
+            if out:
+                break
+    for k_ in mut:
+        info["mutated_" + k_] = 1
+    info["drop_detail"] = _drop_detail(m0, env)
+    info["multi_cell_groups"] = sum(1 for c in R["members"] if len(c) >= 2)
+    return out, info
+
+
 _EVAL = {"cg": _eval_static, "unc": _eval_unc, "simcg": _eval_simcg, "ident": _eval_ident, "hist": _eval_hist,
-         "script": _eval_script}
+         "script": _eval_script, "rep": _eval_rep}
 
 
 def check_case(case, cache=None):
@@ -1359,14 +1488,25 @@ def _spaces(tier, seed=0):
     sp += _hist_spaces(T)
     sp += _script_spaces(T, seed)
     sp += _net_spaces(T)
+    # -- repeated calls on the same input objects --------------------------------------------------------------
+    repf = [((3, 1, 1), 2, ("uniform", "two")), ((2, 2, 1), 3, ("uniform", "two"))]
+    if T:
+        repf += [((3, 2, 1), 2, ("uniform", "two")), ((2, 2, 2), 1, ("two",))]
+    for g, mx, envs in repf:
+        n = g[0] * g[1] * g[2]
+        sp.append(_sp("rep %dx%dx%d: coarsegrain_system / coarsegrain_grid / grid_to_graph / uncoarsegrain_trajectory(_data) "
+                      "called 3 times on the SAME objects, valid maps among {-1..%d}^%d x environment maps %s x units "
+                      "configurations %s" % (g + (mx, n, "/".join(envs), "{0, 2}" if T else "{0}")), "rep", g,
+                      _labels(mx), envs=envs, units=(0, 2) if T else (0,)))
     return sp
 
 
 _SPACES = None
-CHUNK = {"cg": 1500, "unc": 1500, "simcg": 400, "ident": 6, "hist": 12, "script": 16}
+CHUNK = {"cg": 1500, "unc": 1500, "simcg": 400, "ident": 6, "hist": 12, "script": 16, "rep": 60}
 INFO_COUNTS = ("multi_face_edges", "zero_distance_edges", "edges", "noncontiguous", "single_cell_groups",
                "multi_cell_groups", "mixed_flag_groups", "filtered", "filtered_zero_distance", "dynamic",
-               "input_mutated", "invalid_steps", "times_random", "reference_failed", "samples")
+               "input_mutated", "invalid_steps", "times_random", "reference_failed", "samples", "mutated_system",
+               "mutated_index_map", "mutated_coarse_trajectory")
 
 
 _HIST_CACHE = {}      # per worker: summaries of single steps run in a pristine process
@@ -1398,7 +1538,7 @@ def _work(job):
         if sub == "cg":
             nontriv = cls != "valid" or info.get("multi_cell_groups", 0) > 0 or \
                 info.get("drop_detail", "no-dropped-cells") != "no-dropped-cells"
-        elif sub == "unc":
+        elif sub in ("unc", "rep"):
             nontriv = tr > 0 and (info.get("multi_cell_groups", 0) > 0 or
                                   info.get("drop_detail") != "no-dropped-cells")
         else:
